@@ -500,6 +500,10 @@ def program_c03(rnd):
                 body.append(Return(Str(f"r{cname}{mname}")))
                 members.append(Fn(mname, [], Block(body), "method"))
                 methods.add(mname)
+        if rnd.random() < 0.5:
+            # a method with a parameter: the shared site calls it without arguments (arity error, every time)
+            members.append(Fn("p1", ["a"], Block([Print(Str(f"{cname}.p1"), Var("a")), Return(Var("a"))]), "method"))
+            methods.add("p1")
         statics = set()
         if rnd.random() < 0.3:
             members.append(Fn("s", ["q"], Block([Return(Bin("+", Var("q"), Num(1)))]), "static"))
@@ -524,6 +528,8 @@ def program_c03(rnd):
         guarded([Print(Str("zz"), Prop(Var("o"), "zz"))]),
         guarded([ExprSt(PropSet(Var("o"), "zz", Num(1)))]),
         guarded([ExprSt(Invoke(Var("o"), "zz", []))]),
+        guarded([Print(Str("p1()"), Invoke(Var("o"), "p1", []))]),
+        guarded([Print(Str("p1(4)"), Invoke(Var("o"), "p1", [Num(4)]))]),
     ])))
     seq = [rnd.choice(names) for _ in range(rnd.randint(2, 4))]
     objs = []
